@@ -158,7 +158,7 @@ def model_text(reply):
 MAX_CONFIGS = 3
 
 
-def gen_numeric(ctx: Ctx, frozen=False, single=False):
+def gen_numeric(ctx: Ctx, frozen=False, single=False, malformed=False):
     rng = ctx.rng
     n = rng.randint(2 if single else 1, 4)
     thickness = [dyadic(rng, 0.5, 1.5, 2) for _ in range(n)]
@@ -169,6 +169,10 @@ def gen_numeric(ctx: Ctx, frozen=False, single=False):
     spec = None if kind == "none" else rng.randint(1, n + 1) if kind == "int" else gen_planes(rng, n)
     if single:  # one explicit exit plane that is not the last slice
         spec = [rng.randint(0, n - 2)]
+    if malformed:
+        spec = gen_planes(rng, n, weird=True)
+        if spec == sorted(set(spec)) and all(-1 <= q < n for q in spec):  # the mutation happened to stay valid
+            spec = spec + [spec[0]]
     builder = rng.choice(["plane", "probe"])
     det = rng.choice(["waves", "pixelated"] if builder == "plane" else ["waves", "annular", "flexible", "pixelated"])
     scan = None
@@ -178,7 +182,7 @@ def gen_numeric(ctx: Ctx, frozen=False, single=False):
     nfp = rng.randint(1, MAX_CONFIGS) if frozen and pot != "crystal" else 0
     if pot == "array" and nfp > 1:
         nfp = 1  # eager build of a multi-configuration ensemble is C10's subject (DESIGN §7 F2), not this property's
-    return dict(entry=rng.choice(["builder", "builder", "real", "reciprocal"]),
+    return dict(malformed=malformed, entry=rng.choice(["builder", "builder", "real", "reciprocal"]),
                 thickness=thickness, atoms=atoms, spec=spec, builder=builder, det=det, scan=scan,
                 gpts=rng.choice([8, 12, 16]), pot=pot, lazy=rng.random() < 0.4, nfp=nfp, seed=rng.randint(0, 10 ** 6))
 
@@ -319,7 +323,7 @@ class C07(Property):
         # traced multislice_and_detect
         ntr = ctx.n(120, 1500)
         for i in range(ntr):
-            c = trace_case(rng, weird=(i % 5 == 4))
+            c = trace_case(rng, weird=False)  # unsorted / repeated / out-of-range tuples are rejected (unit stream + oracle)
             pot, configs, text = run_traced(c)
             add("multislice_and_detect(traced)", f"msd {bool_s(c['ens'])} {list_s(int(p) for p in pot.exit_planes)} "
                                                  f"{pot.num_slices} {listlist_s(expected_ids(configs, c['algorithm']))} {bool_s(c['recip'])}", text, c)
@@ -339,6 +343,19 @@ class C07(Property):
         from abtem.potentials.iam import PotentialArray
 
         tag = f"{c['pot']}:{c['builder']}:{c['det']}:{'lazy' if c['lazy'] else 'eager'}"
+        if c.get("malformed"):
+            # unsorted / repeated / out-of-range explicit exit planes: must be rejected when the potential is made — never
+            # turned into zero-filled entries labelled with a thickness
+            try:
+                res = _run(c, _potential(c, c["spec"], _atoms(c)), lazy=c["lazy"])
+            except ValueError:
+                ctx.count("malformed-exit-planes:rejected")
+                return
+            except Exception as e:  # noqa
+                ctx.violation("malformed-exit-planes-raise-" + type(e).__name__, c, {"exit_planes": c["spec"], "error": str(e)[:200]})
+                return
+            ctx.violation("malformed-exit-planes-accepted", c, {"exit_planes": c["spec"], "shape": list(res.shape)})
+            return
         atoms = _atoms(c)
         if c.get("nfp"):
             import abtem
@@ -363,10 +380,9 @@ class C07(Property):
         except Exception as e:  # noqa
             if not c["lazy"]:
                 raise
-            # a lazy run that raises although the eager run succeeds is a lazy/eager discrepancy: C01's subject
-            # (DESIGN §7 F19); the thickness series itself is then checked on the eager result
-            res = _run(c, pot, lazy=False)
-            ctx.count("deferred-to-C01:lazy-raises-" + type(e).__name__ + "-eager-ok")
+            _run(c, pot, lazy=False)  # (raises as well -> reported by the caller as a failing run)
+            ctx.violation("lazy-thickness-series-raises-eager-ok:" + type(e).__name__, c, {"error": f"{type(e).__name__}: {e}"[:200], "case": tag})
+            return
         nfp = c.get("nfp") or 0
         arr = np.asarray(res.array)
         # reference: the slices themselves (built once, no exit planes), truncated by plain array slicing
@@ -405,7 +421,7 @@ class C07(Property):
 
     def conformance(self, ctx: Ctx):
         for i in range(ctx.n(72, 800)):
-            c = gen_numeric(ctx, frozen=(i % 3 == 2), single=(i % 6 == 5))
+            c = gen_numeric(ctx, frozen=(i % 3 == 2), single=(i % 6 == 5), malformed=(i % 8 == 7))
             try:
                 self.oracle(ctx, c)
             except Exception as e:  # noqa
